@@ -94,6 +94,9 @@ func caseGen() *rapid.Generator[Case] {
 		if rapid.IntRange(0, 3).Draw(t, "pre?") == 0 {
 			c.Pre = 1 + rapid.IntRange(0, len(c.Script.Ops)).Draw(t, "pre")
 		}
+		if gen.Rarely(t, "bulk", 400) {
+			c.Bulk = rapid.SampledFrom([]int{1021, 1022, 1023, 1024, 1025, 2047}).Draw(t, "bulkrows") // row counts around powers of two
+		}
 		return c
 	})
 }
